@@ -24,3 +24,57 @@ CHECK = GraphCheck(
     profile=("stage", "table", "iter"),
     use_byteflow=True,
 )
+
+
+# ---------------------------------------------------------------- edit histories
+# Iteration must also be right on a graph that is being edited through the
+# public primitives (a new entry block in front of the head, insertions after
+# regions): the C14 history generator is reused with the iteration oracle run
+# after every edit.
+import random as _random
+
+from .. import attach as _attach
+from ..attach import run_oracle as _run_oracle
+from .base import ShardAcc as _ShardAcc
+from . import c14 as _c14
+
+_plan0 = CHECK.plan
+_run0 = CHECK.run_shard
+
+
+def _plan(tier, seed):
+    shards = _plan0(tier, seed)
+    total = 3000 if tier == "quick" else 100000
+    per = 250 if tier == "quick" else 2500
+    for start in range(0, total, per):
+        shards.append({"kind": "iter_histories", "seed": seed, "start": start, "count": per,
+                       "tier": tier})
+    return shards
+
+
+def _post_edit(ctx, scfg):
+    from ..oracles.itercheck import check_iteration
+
+    ctx.hit("C16.iteration_after_edit")
+    _run_oracle(ctx, "C16.iteration", check_iteration, scfg)
+
+
+def _run_shard(spec):
+    if spec["kind"] == "iter_histories" or (
+            spec["kind"] == "single" and spec["case"].get("kind") == "history"):
+        _attach.install(("stage", "table", "iter"))
+        acc = _ShardAcc("C16")
+        if spec["kind"] == "single":
+            _c14.run_history(spec["case"], acc, _post_edit, True, "C16")
+            return acc.result()
+        for i in range(spec["start"], spec["start"] + spec["count"]):
+            rng = _random.Random(f"c16h/{spec['seed']}/{i}")
+            case = _c14.gen_history(rng)
+            # iterate once before editing (a stale cache needs a first look)
+            _c14.run_history(case, acc, _post_edit, True, "C16")
+        return acc.result()
+    return _run0(spec)
+
+
+CHECK.plan = _plan
+CHECK.run_shard = _run_shard
